@@ -286,6 +286,71 @@ func c15(c *Ctx) {
 	}
 
 	c15CursorAdvance(c, "C15.6/cursor-advance-matches-read", c16Decoders)
+	// ---- C15.7 a row decoder steps over a value by both numbers DecodeValueLength returns -------------------------
+	// DecodeValueLength(b) returns the length of the value and the length of its length prefix; every row decoder
+	// (server and client side siblings) advances by both; dropping one shifts every following column
+	r7 := "C15.7/value-length-results-used"
+	nv := 0
+	for _, in := range c.callSites(callTo("embedded/sql.DecodeValueLength")) {
+		call, ok := in.(*ssa.Call)
+		if !ok {
+			continue
+		}
+		nv++
+		used := map[int]bool{}
+		for _, ref := range *call.Referrers() {
+			if ex, ok := ref.(*ssa.Extract); ok && len(*ex.Referrers()) > 0 {
+				used[ex.Index] = true
+			}
+		}
+		c.check(used[0] && used[1], r7, fmt.Sprintf("%s:DecodeValueLength#%d", fnName(in.Parent()), idxAmong(in, callTo("embedded/sql.DecodeValueLength"))), c.pos(in.Pos()),
+			"value length and prefix length are both used", "one of the two lengths returned by DecodeValueLength is discarded: the cursor is advanced by the value or by its prefix only")
+	}
+	if nv < 3 {
+		c.undecided(r7, "floor", fmt.Sprintf("%d DecodeValueLength call sites found", nv))
+	}
+	// ---- C15.3 (SQL keys): the length found in a key is compared with maxLen the way the encoder compares it ------
+	// EncodeRawValueAsKey refuses len > maxLen, so a value of exactly maxLen bytes is encodable and must be decodable:
+	// both sides test "exceeds" (maxLen < n), never "reaches" (n >= maxLen)
+	r3 := "C15.3/limit-agreement"
+	for _, name := range []string{"embedded/sql.EncodeRawValueAsKey", "embedded/sql.DecodeValueFromKey"} {
+		f := c.mustFn(r3, name)
+		if f == nil {
+			continue
+		}
+		nm := 0
+		allInstrs(f, false, func(in ssa.Instruction) {
+			ifi, ok := in.(*ssa.If)
+			if !ok {
+				return
+			}
+			for _, leaf := range boolLeaves(ifi.Cond) {
+				bo, ok := leaf.(*ssa.BinOp)
+				if !ok {
+					continue
+				}
+				a, _ := normCond(bo)
+				if !strings.Contains(a, "param:maxLen") || !strings.Contains(a, " < ") {
+					continue
+				}
+				l, rgt := desc(bo.X), desc(bo.Y)
+				// only comparisons of maxLen with a length taken from the value / the key
+				other := l
+				if l == "param:maxLen" {
+					other = rgt
+				}
+				if !strings.Contains(other, "len(") && !strings.Contains(other, "Uint32") {
+					continue
+				}
+				if strings.Contains(other, "len(param:b)") || strings.Contains(other, "len(param:buf)") {
+					continue // room checks on the buffer, not on the value
+				}
+				nm++
+				c.check(strings.HasPrefix(a, "(param:maxLen < "), r3, fmt.Sprintf("%s:maxLen-vs-length#%d", fnName(f), nm), c.pos(bo.Pos()), "tests `length exceeds maxLen`: "+a,
+					"the length is compared with maxLen as "+a+" (reaches, not exceeds): a value of exactly maxLen bytes is accepted by one side of the codec and rejected by the other")
+			}
+		})
+	}
 	// ---- C15.5 proto conversions of metadata carry every attribute -------------------------------------------------------------
 	r = "C15.5/proto-conversion-coverage"
 	for _, p := range []struct{ fn, pkg, typ string }{
